@@ -10,8 +10,10 @@ C16_THMS = ['Theo.C16_calls_go_down', 'Theo.C16_stack_bounded', 'Theo.C16_stack_
             'Theo.C16_compiled_stack_bounded', 'Theo.C16_compile_loop_halts', 'Theo.C16_loop_source_halts', 'Theo.C16_loop_halts', 'Theo.C16_loop_iterations', 'Theo.C16_toSource_distinctLoopIds']
 C01_THMS = ['Theo.C01_never_stuck', 'Theo.C01_halts_same_values', 'Theo.C01_diverges',
             'Theo.C01_gen_shape', 'Theo.C01_gen_shape_parsed', 'Theo.C01_gen_halts_same_values', 'Theo.C01_gen_diverges',
-            'Theo.C01_compile_correct', 'Theo.C01_compile_shape', 'Theo.C01_front_end_identifiers']
-C07_THMS = ['Theo.C07_step_trace', 'Theo.C07_no_extra_stops', 'Theo.C07_stepping_stops_at_sites']
+            'Theo.C01_compile_correct', 'Theo.C01_compile_shape', 'Theo.C01_front_end_identifiers',
+            'Theo.C01_budget', 'Theo.C01_budget_upper', 'Theo.C01_compile_budget', 'Theo.C01_compile_budget_upper', 'Theo.C01_budget_statement_false']
+C07_THMS = ['Theo.C07_step_trace', 'Theo.C07_no_extra_stops', 'Theo.C07_stepping_stops_at_sites',
+            'Theo.C07_gen_sites', 'Theo.C07_compile_step_trace', 'Theo.C07_compile_sites']
 
 
 def envs(acts, keep_counters=False):
@@ -346,7 +348,7 @@ def check_C16(ctx):
 
 
 def check_C01(ctx, thms=None):
-    build_all(ctx, ['Theo.Props.C01', 'Theo.Props.C01GenShape', 'Theo.Props.C01Compile'], thms if thms is not None else C01_THMS)
+    build_all(ctx, ['Theo.Props.C01', 'Theo.Props.C01GenShape', 'Theo.Props.C01Compile', 'Theo.Props.C01Budget'], thms if thms is not None else C01_THMS)
     if ctx.harness is None:
         return finish(ctx)
     B = 20000
@@ -410,7 +412,7 @@ def check_C01(ctx, thms=None):
 
 
 def check_C07(ctx, thms=None):
-    build_all(ctx, ['Theo.Props.C07'], thms if thms is not None else C07_THMS)
+    build_all(ctx, ['Theo.Props.C07', 'Theo.Props.C07Compile'], thms if thms is not None else C07_THMS)
     if ctx.harness is None:
         return finish(ctx)
     cases = gen_programs(ctx, ctx.n(600, 6000), layouts=('canonical', 'canonical_multi', 'canonical_multi', 'reentry'))
